@@ -112,6 +112,7 @@ def run(case):
     err = io.StringIO()
     del ORDER[:]
     t0 = time.time()
+    c0 = time.process_time()
     signal.signal(signal.SIGALRM, _alarm)
     signal.alarm(int(case.get("timeout", 60)))
     try:
@@ -140,6 +141,7 @@ def run(case):
         signal.alarm(0)
     res["order"] = list(ORDER)
     res["wall"] = round(time.time() - t0, 3)
+    res["cpu"] = round(time.process_time() - c0, 3)
     res["stderr"] = err.getvalue()[-600:]
     return res
 
